@@ -193,10 +193,14 @@ impl Node {
             }
             Node::Cpc(s) => {
                 let k = 1u32 << s.lg_k();
-                for c in 0..(cols as u32).min(40) {
+                // up to 59 whole columns at small lg_k: C stays below (27/8 + 56) K, the last window position
+                let near_full = cols >= 56 && s.lg_k() <= 6;
+                for c in 0..(cols as u32).min(if s.lg_k() <= 6 { 59 } else { 40 }) {
                     for i in 0..k {
                         let row = i.wrapping_mul(0x9E37_79B1) & (k - 1);
-                        if !skip(row, c) {
+                        // (almost no holes in a nearly full matrix: the last window position needs C >= 58.375 K)
+                        let hole = if near_full { (row.wrapping_mul(2654435761) ^ c.wrapping_mul(40503) ^ (seed as u32)) % 400 == 0 } else { skip(row, c) };
+                        if !hole {
                             s.verif_row_col_update((row << 6) | c);
                         }
                     }
@@ -602,6 +606,12 @@ impl Scenario for C11 {
             acts.push(Act::Update { vals: v, w: rng.next_u64() });
             acts.push(Act::Checkpoint { sync: true });
             acts.push(Act::Crash { torn: false });
+        }
+        if fam == "cpc" && rng.chance(1, 60) {
+            // spot run: a small sketch filled column by column up to the last window positions (offsets 50..56)
+            let cfg = Cfg { fam: fam.to_string(), a: rng.range(4, 6), b, seed: cfg.seed };
+            let acts = vec![Act::Fill { cols: rng.range(54, 59) as u8, seed: rng.next_u64() }, Act::Compare, Act::Checkpoint { sync: true }, Act::Crash { torn: false }, Act::Compare];
+            return (cfg, acts);
         }
         if fam == "theta" && rng.chance(1, 150) {
             // spot run with more than 65535 retained entries (three-byte entry count in the compressed form)
